@@ -1,3 +1,6 @@
+mod analyzer;
+mod c06;
+mod deep;
 mod exprrec;
 mod exprrows;
 mod lexrec;
@@ -59,6 +62,31 @@ fn main() {
         }
         "rng-record" => {
             rng::record(args[2].parse().unwrap(), args[3].parse().unwrap(), &args[4]);
+        }
+        // vh ana-replay <tlc-output> <report.json>
+        "ana-replay" => {
+            let text = read_input(&args[2]);
+            analyzer::replay_rows(&text, &mut rep);
+            std::fs::write(&args[3], serde_json::to_string(&rep.to_json()).unwrap()).unwrap();
+        }
+        // vh ana-record <seed> <n> <out.ndjson> <report.json>
+        "ana-record" => {
+            analyzer::record(args[2].parse().unwrap(), args[3].parse().unwrap(), &args[4], &mut rep);
+            std::fs::write(&args[5], serde_json::to_string(&rep.to_json()).unwrap()).unwrap();
+        }
+        // vh c06-replay <tlc-output> <report.json>   |   vh c06-forward <seed> <n> <report.json>
+        "c06-replay" => {
+            let text = read_input(&args[2]);
+            c06::replay_rows(&text, &mut rep);
+            std::fs::write(&args[3], serde_json::to_string(&rep.to_json()).unwrap()).unwrap();
+        }
+        "c06-forward" => {
+            c06::forward_programs(args[2].parse().unwrap(), args[3].parse().unwrap(), &mut rep);
+            std::fs::write(&args[4], serde_json::to_string(&rep.to_json()).unwrap()).unwrap();
+        }
+        // vh deep-one <kind> <depth>     (run in a child process by the check)
+        "deep-one" => {
+            deep::run(&args[2], args[3].parse().unwrap());
         }
         // vh lex-record <seed> <n> <out.ndjson>
         "lex-record" => {
